@@ -40,6 +40,8 @@ def join(side, with_, on, alias="", explicit=False):
     return {"op": "join", "side": side, "with": with_, "on": on, "alias": alias, "explicit_side": explicit}
 def eqcol(name): return {"t": "eqcol", "name": name}
 def append(with_): return {"op": "append", "with": with_}
+def remove(with_): return {"op": "remove", "with": with_}
+def intersect(with_): return {"op": "intersect", "with": with_}
 def loop(pipe): return {"op": "loop", "pipe": pipe}
 
 # ---------------------------------------------------------------------------------------
